@@ -54,3 +54,22 @@ Fixpoint pool_run (shape : list (nat * nat)) (s : pool) : option pool :=
 
 (* the code as it is: no extra Put anywhere *)
 Definition shape_of (h : list step) : list (nat * nat) := map (fun st => (0%nat, buffers_of (fst (fst st)))) h.
+
+(* ------------------------------------------------------------------ *)
+(* Modes that are not inputs of the send functions.
+
+   Log level: the library logs through package-level loggers at error / info / debug.  The send functions of the
+   model have no such parameter; [emit_at] makes that explicit: logging is an observer. *)
+Inductive log_level := LError | LInfo | LDebug.
+Definition emit_at (l : log_level) (c : cfg) (s : step) : res (list bytes) := emit c s.
+Definition run_at (ls : list log_level) (c : cfg) (h : list step) : list bytes :=
+  concat (map (fun p => frames_of (emit_at (fst p) c (snd p))) (combine ls h)).
+
+(* Write errors: every send function hands its frame(s) to Conn.WriteTo once and returns the error of that call;
+   none retries.  [conn_write fails frames] = (what reaches the wire, whether the error is returned). *)
+Definition conn_write {A} (fails : bool) (frames : list A) : list A * bool :=
+  match frames with
+  | [] => ([], false)                      (* refused before any write: no write, not this error *)
+  | _ => if fails then ([], true) else (frames, false)
+  end.
+Definition emit_conn (fails : bool) (c : cfg) (s : step) : list bytes * bool := conn_write fails (frames_of (emit c s)).
